@@ -55,4 +55,20 @@ def check_C04(tier, seed):
                   extra_cov={"exhaustive": True, "explanation": "all (start,end) in {0..len+2, MAX-1, MAX}^2 x 7 forms (+ exhausted RangeInclusive) x 5 kind/mode pairs x get/index x lengths 0..=L x all shapes x debug/release"})
 
 
-CHECKS = {"C04": check_C04, "C01": check_C01, "C02": check_C02, "C03": check_C03, "C08": check_C08}
+def check_C09(tier, seed):
+    t0 = time.time()
+    z = sizes(tier)
+    for p in ("debug", "release"): build_harness(p)
+    proof = prove("C09", ["Soa.Props.C09"])
+    shapes = gen.ALL_SHAPES
+    suites = []
+    suites.append(run_suite("C09", gen.trait_access(shapes, z["L"]), ["debug", "release"], [mon_c09], "access", compare_model=MODEL_C09))
+    hist = [gen.to_trait(s) for s in gen.vec_boundary(shapes, min(z["L"], 3), with_masks=False) + gen.vec_random(shapes, z["nrand"], z["nops"], seed)]
+    suites.append(run_suite("C09", hist, ["debug", "release"], [mon_c09], "history", compare_model=MODEL_C09))
+    def widen():
+        yield run_suite("C09", gen.trait_access(shapes, 6), ["debug", "release"], [mon_c09], "widen-access", compare_model=False)
+    return finish("C09", tier, seed, t0, "proof", proof, suites, [mon_c09], widen=widen)
+
+MODEL_C09 = True
+
+CHECKS = {"C09": check_C09, "C04": check_C04, "C01": check_C01, "C02": check_C02, "C03": check_C03, "C08": check_C08}
